@@ -216,6 +216,24 @@ func confirmCrash(texts []string) (bool, string) {
 	return msg != "", msg
 }
 
+// heapCap is where a shard stops because of what validations leave behind: 16 workers share the machine's memory, so each
+// gets its part of 60 % of it (at most 8 GiB, at least 1 GiB).
+var heapCap = func() uint64 {
+	c := uint64(8 << 30)
+	if b, err := os.ReadFile("/proc/meminfo"); err == nil {
+		var kb uint64
+		if _, err := fmt.Sscanf(string(b), "MemTotal: %d kB", &kb); err == nil && kb > 0 {
+			if part := kb * 1024 * 6 / 10 / 16; part < c {
+				c = part
+			}
+		}
+	}
+	if c < 1<<30 {
+		c = 1 << 30
+	}
+	return c
+}()
+
 var (
 	curStart atomic.Int64
 	curText  atomic.Pointer[string]
@@ -402,7 +420,7 @@ func main() {
 		rep.MaxParallel = 16
 		shards := 64
 		if rep.Thorough() {
-			shards = 512
+			shards = 2048
 		}
 		rep.RunWorkers(shards)
 		// a worker that was terminated (a panic in a goroutine started by a directive ends the process) left its most
@@ -491,7 +509,7 @@ func main() {
 				os.RemoveAll(scratch)
 				rep.Finish()
 			}
-			if m.HeapAlloc > 8<<30 {
+			if m.HeapAlloc > heapCap {
 				// accumulated over many configurations (see the note at RunWorkers): not a finding, but this shard stops here
 				rep.Capped(fmt.Sprintf("shard stopped: heap %d MB accumulated over %d configurations", m.HeapAlloc>>20, rep.Evals()))
 				os.Chdir("/")
